@@ -5,6 +5,7 @@ Writes <seed_dir>/eval.json. Uses /tmp/evalwt_<PID> as scratch worktree (removed
 import json, os, subprocess, sys, time
 
 seed, pid = sys.argv[1], sys.argv[2]
+VERIF = os.environ.get("VERIF_DIR", "/verif")      # a frozen copy (git worktree of /verif) may be used while /verif is being edited
 tier = sys.argv[3] if len(sys.argv) > 3 else "quick"
 wt = "/tmp/evalwt_%s_%d" % (pid, os.getpid())
 out = {"seed": seed, "property": pid, "tier": tier}
@@ -58,13 +59,13 @@ try:
                             and out["demo_patched_rc"] != 0 and out["baseline_rc"] == 0)
     env = dict(os.environ, PYTHONPATH=wt, VERIF_REPO=wt)
     t0 = time.time()
-    rc, o = sh("./check %s --tier %s" % (pid, tier), cwd="/verif", env=env, timeout=7200)
+    rc, o = sh("./check %s --tier %s" % (pid, tier), cwd=VERIF, env=env, timeout=7200)
     out["check_rc"] = rc
     out["check_wall_s"] = round(time.time() - t0, 1)
     lines = [l for l in o.splitlines() if l.startswith(("VIOLATION", "HARNESS-ERROR", "KNOWN-FINDING", pid))]
     out["check_lines"] = lines[:6]
     out["detected"] = rc == 1
-    _c = subprocess.run("git -C /verif log --format=%h -1", shell=True, capture_output=True, text=True).stdout.strip()
+    _c = subprocess.run("git -C %s log --format=%%h -1" % VERIF, shell=True, capture_output=True, text=True).stdout.strip()
     out["history"].append("checks at commit %s: %s" % (_c, "DETECTED" if rc == 1 else ("harness error" if rc == 2 else "missed")))
     # keep one replay transcript for the record
     for l in lines:
@@ -77,7 +78,7 @@ try:
             break
 finally:
     sh("git -C /repo worktree remove --force %s" % wt)
-    sh("rm -rf /verif/replays/%s" % pid)
+    sh("rm -rf %s/replays/%s" % (VERIF, pid))
 json.dump(out, open(os.path.join(seed, "eval.json"), "w"), indent=1, default=repr)
 print(pid, os.path.basename(seed), "confirmed=%s" % out.get("confirmed"), "detected=%s" % out.get("detected"), "rc=%s" % out.get("check_rc"),
       "%.0fs" % out.get("check_wall_s", 0))
